@@ -118,6 +118,9 @@ def run_unit(unit, acc):
             gs = range(0, L + 2) if L <= 4 else sorted({0, max(0, nT - 1), nT, nT + 1, L + 1})
             for Gn in gs:
                 check_case(dict(layer="a", seq=list(seq), G=Gn, aph=unit["alphabet"] == "6"), acc)
+            if 2 <= L <= 4 and all(x in SY4 for x in seq):
+                # confidences that are distinct but 1e-9 apart: the ranking is still the one of the exact values
+                check_case(dict(layer="a", seq=list(seq), G=max(nT, 1), aph=False, close=True), acc)
     elif lay == "ties":
         for L in range(2, 5):
             for seq in itertools.product(SY4, repeat=L):
@@ -222,9 +225,12 @@ def check_case(case, acc):
 
     if lay == "a":
         seq, Gn = case["seq"], case["G"]
-        res = [_res(s, i) for i, s in enumerate(seq)]
-        nT = sum(s.startswith("T") for s in seq)
         L = len(seq)
+        if case.get("close"):
+            res = [_res(s, i, conf=0.6 + 1e-9 * (L - i)) for i, s in enumerate(seq)]
+        else:
+            res = [_res(s, i) for i, s in enumerate(seq)]
+        nT = sum(s.startswith("T") for s in seq)
         orders = {"ranked": [list(res)], "reversed": [list(reversed(res))]}
         if 2 <= L <= 4:
             orders["rotated+split"] = [list(res[L // 2:]), [], list(res[:L // 2])]
